@@ -62,6 +62,8 @@ ModesAlo == {<<"alo", 1>>, <<"alo", 2>>}
 (* beyond such a request only: a request for a file holding an entry that is not even consumed in      *)
 (* memory, or any premature request in StrictlyAtOnce mode, is not covered by this guard.             *)
 (* MC_WalrusBlocks_finding_alo_reclaim.cfg runs without the guard: TLC must find the finding.          *)
+(* Every configuration that must be clean and whose ModeSet contains AtLeastOnce carries the guard      *)
+(* (in the short one-topic configurations no request is reachable and it never cuts anything).          *)
 AloReclaimKnown == Alo /\ \E i \in 1 .. Len(rq) :
                      ConsumedInMemory(StoredIn(rq[i])) /\ ~ReclaimAllowed(StoredIn(rq[i]))
 GuardAloReclaimNotDurable == ~AloReclaimKnown
@@ -92,6 +94,10 @@ PrintHist == (nops > 0 /\ rq = <<>>) => PrintT(<<"HIST", ToJson(Summary)>>)
 (* only the deepest level and the states a restart produced (enough for long configurations) *)
 PrintHistDeep == (rq = <<>> /\ (nops = MaxOps \/ (nops >= MaxOps - 1 /\ lastOp \in {"reopen", "reopen_new"})))
                  => PrintT(<<"HIST", ToJson(Summary)>>)
+(* TLC evaluates invariants also on the successor states a CONSTRAINT discards (once per generation,   *)
+(* not once per distinct state): under BoundLog6 print the states inside the bound only (the bound    *)
+(* is repeated here: with -coverage 1 TLC does not resolve an operator that is also a CONSTRAINT)      *)
+PrintHistB6 == (nops > 0 /\ rq = <<>> /\ TotalLogged <= 6) => PrintT(<<"HIST", ToJson(Summary)>>)
 (* histories in which a reclamation request was raised, and their prefixes are not needed: the     *)
 (* states right after a request, and the deepest level                                            *)
 PrintHistReclaim == (rq = <<>> /\ (nops = MaxOps \/ lrq # <<>>)) => PrintT(<<"HIST", ToJson(Summary)>>)
